@@ -325,7 +325,9 @@ fn check_safety(t: &[[f32; 3]], sc: SafetyCfg, r: &mut Report) {
     let mut wrote = false;
     for y in 0..ph { for x in 0..pw {
         let (c, d) = (pc[[x, y]], pd[[x, y]]);
-        let inside_vp = x >= ox + sc.vp.0 && x < ox + sc.vp.2 && y >= oy + sc.vp.1 && y < oy + sc.vp.3;
+        // (a viewport given bottom-up or right-to-left covers the same pixels)
+        let (vl, vr, vt, vb) = (sc.vp.0.min(sc.vp.2), sc.vp.0.max(sc.vp.2), sc.vp.1.min(sc.vp.3), sc.vp.1.max(sc.vp.3));
+        let inside_vp = x >= ox + vl && x < ox + vr && y >= oy + vt && y < oy + vb;
         let sent = c == (0x7E57_0000 | (y * pw + x)) && d.to_bits() == (1e-9 * (1 + y * pw + x) as f32).to_bits();
         if !sent { wrote = true; }
         if !inside_vp && !sent { r.violation(format!("outside-viewport-written|{}", tag()), format!("cell ({x},{y}) of the {pw}x{ph} buffer lies outside the viewport but was modified (colour {c:#x}, depth {d})"), case()); return; }
@@ -385,7 +387,9 @@ fn safety_lattice(quick: bool, far: f32) -> Vec<[f32; 3]> {
 }
 
 fn safety_cfgs() -> Vec<(u32, u32, (u32, u32, u32, u32))> {
-    vec![(7, 5, (0, 0, 7, 5)), (1, 1, (0, 0, 1, 1)), (2, 3, (0, 0, 2, 3)), (7, 5, (6, 4, 7, 5)), (7, 5, (2, 1, 5, 4)), (16, 16, (0, 3, 16, 16)), (16, 16, (0, 0, 16, 16)), (7, 5, (0, 0, 1, 1)), (9, 9, (4, 0, 9, 3))]
+    vec![(7, 5, (0, 0, 7, 5)), (1, 1, (0, 0, 1, 1)), (2, 3, (0, 0, 2, 3)), (7, 5, (6, 4, 7, 5)), (7, 5, (2, 1, 5, 4)), (16, 16, (0, 3, 16, 16)), (16, 16, (0, 0, 16, 16)), (7, 5, (0, 0, 1, 1)), (9, 9, (4, 0, 9, 3)),
+        // mirrored viewports: bottom-up (the y-up idiom), right-to-left, both
+        (7, 5, (0, 5, 7, 0)), (7, 5, (5, 1, 2, 4)), (16, 16, (16, 16, 0, 3))]
 }
 
 fn run_safety(cfg: &Cfg) -> ! {
@@ -420,6 +424,14 @@ fn run_safety(cfg: &Cfg) -> ! {
             check_safety(&t, SafetyCfg { proj: pi, bw, bh, vp, flags: flagsets[(i / 7 % 4) as usize], sub: i % 3 == 0 }, r);
             r.h("rescaled-scene");
         }));
+    }
+    // scale: one call with 1100 and with 2500 triangles (clipped and unclipped ones mixed), debug assertions armed
+    for n in [1100usize, 2500] {
+        let pts = safety_lattice(true, 1000.0);
+        let t: Vec<[f32; 3]> = (0..3 * n).map(|k| pts[(k * 7919 + k / 3 * 13) % pts.len()]).collect();
+        check_safety(&t, SafetyCfg { proj: 1, bw: 16, bh: 16, vp: (0, 3, 16, 16), flags: 0, sub: false }, &mut rep);
+        check_safety(&t, SafetyCfg { proj: 5, bw: 7, bh: 5, vp: (2, 1, 5, 4), flags: 13, sub: true }, &mut rep);
+        rep.h("thousand-triangle-call");
     }
     // wide targets x far vertices: a vertex just inside the near plane and two vertices hundreds of units away on either side of
     // the eye plane - the edges cross the side planes close to the viewer, where the rounding error of an intersection
@@ -637,6 +649,10 @@ fn explore_order_cull(scene: &Scene, r: &mut Report, scene_id: u64, discard: Dis
             if (0..px).any(|p| full[p].is_some() && a.color[p] != b.color[p]) {
                 let p = (0..px).find(|&p| full[p].is_some() && a.color[p] != b.color[p]).unwrap();
                 r.violation(format!("painter|scene{scene_id}|{}", short(scene)), format!("depth test off + BackToFront differs from the depth-buffered image at pixel {p}: {:#x} vs {:#x}", a.color[p], b.color[p]), obj! {"kind" => "painter", "scene" => scene_json(scene)});
+            } else if let Some(p) = (0..px).find(|&p| full[p].is_some() && a.depth.as_ref().unwrap()[p].to_bits() != b.depth.as_ref().unwrap()[p].to_bits()) {
+                // the depth buffer too: with the test off every fragment passes and, depth writes being on, leaves its depth -
+                // painted back to front, the last one at each pixel is the nearest
+                r.violation(format!("painter|depth-buffer|scene{scene_id}|{}", short(scene)), format!("depth test off + BackToFront (depth writes on) leaves depth {:e} at pixel {p}, the depth-buffered pass {:e}", a.depth.as_ref().unwrap()[p], b.depth.as_ref().unwrap()[p]), obj! {"kind" => "painter", "scene" => scene_json(scene)});
             } else { r.h("painter-clause-checked"); }
         }
         }
@@ -1029,8 +1045,10 @@ fn check_depth_predicate(scene: &Scene, kind: TargetKind, door: Door, shift: usi
     let delta = |p: usize| [-2i32, -1, 0, 1, 2][(p + shift) % 5];
     let pc: Vec<u32> = (0..px).map(color_sentinel).collect();
     let pd: Vec<f32> = (0..px).map(|p| if covered[p] && fd[p].is_finite() && fd[p] > 0.0 { f32::from_bits((fd[p].to_bits() as i32 + delta(p)) as u32) } else { depth_sentinel(p) }).collect();
-    for pred in [Ordering::Less, Ordering::Greater, Ordering::Equal] {
-        let ctx = Context { depth_test: Some(pred), ..ctx_plain() };
+    for pred in [Ordering::Less, Ordering::Greater, Ordering::Equal] { for sort in [None, Some(DepthSort::BackToFront), Some(DepthSort::FrontToBack)] {
+        // (the predicate is the predicate under every depth-sort setting: sorting orders the triangles of a call, no more)
+        if sort.is_some() && (shift + (pred as i8 + 1) as usize) % 2 == 1 { continue; }
+        let ctx = Context { depth_test: Some(pred), depth_sort: sort, ..ctx_plain() };
         let out = match render_scene(scene, None, door, kind, &ctx, Discard::Never, Some((&pc, &pd))) { Ok(o) => o, Err(p) => { r.violation(format!("render-panic|depth-pred|{tag}"), p, case()); return; } };
         let od = out.depth.as_ref().unwrap();
         let mut passes = 0usize;
@@ -1041,12 +1059,12 @@ fn check_depth_predicate(scene: &Scene, kind: TargetKind, door: Door, shift: usi
             if pass { passes += 1; }
             let (wc, wd) = if pass { (base.color[p], fd[p]) } else { (pc[p], pd[p]) };
             if out.color[p] != wc || od[p].to_bits() != wd.to_bits() {
-                r.violation(format!("depth-predicate|{pred:?}|{}ulp|{tag}", delta(p)), format!("depth test {pred:?}: pixel {p} primed with the fragment's depth {:e} moved by {} ulp ({:e}) - the fragment must {}, but the pixel holds colour {:#x} depth {:e} (expected {wc:#x}, {wd:e})", fd[p], delta(p), pd[p], if pass { "pass" } else { "fail" }, out.color[p], od[p]), case());
+                r.violation(format!("depth-predicate|{pred:?}|{}ulp|{tag}", delta(p)), format!("depth test {pred:?} (depth_sort {sort:?}): pixel {p} primed with the fragment's depth {:e} moved by {} ulp ({:e}) - the fragment must {}, but the pixel holds colour {:#x} depth {:e} (expected {wc:#x}, {wd:e})", fd[p], delta(p), pd[p], if pass { "pass" } else { "fail" }, out.color[p], od[p]), case());
                 return;
             }
         }
         if out.stats.frags.o != passes { r.violation(format!("stats|frags.o|depth-predicate|{pred:?}|{tag}"), format!("depth test {pred:?}: {passes} fragments pass the test and are written, frags.o = {}", out.stats.frags.o), case()); return; }
-    }
+    }}
     r.nontrivial();
 }
 
@@ -1322,6 +1340,14 @@ fn run_config(cfg: &Cfg) -> ! {
         let singles: Vec<&Scene> = scenes.iter().filter(|s| s.tris.len() == 1 && s.vp.0 <= s.vp.2).collect();
         let n1 = singles.len() as u64;
         rep.merge(par_range(cfg, n1 * 3 * 5 * 2, |i, r| check_depth_predicate(singles[(i % n1) as usize], [TargetKind::Owned, TargetKind::SubView][(i / n1 / 15) as usize], DOORS[(i / n1 % 3) as usize], (i / n1 / 3 % 5) as usize, r)));
+    }
+    // scale: one call with more faces than 2^14 and 2^16, through every door (a call is one call however much it draws)
+    for (n, door) in [(16385usize, Door::Batch), (16500, Door::Render), (if quick { 16385 } else { 65600 }, Door::Camera), (if quick { 20000 } else { 70000 }, Door::Batch)] {
+        let sc = Scene { tris: (0..n).map(|k| pool[(k * 5 + k / 7) % pool.len()].clone()).collect(), bw: 8, bh: 8, vp: (0, 0, 8, 8) };
+        let mut r = Report::new();
+        check_config_door(&sc, 0, Discard::Never, TargetKind::ColorOnly, door, &mut r);
+        r.h("many-thousand-face-call");
+        rep.merge(r);
     }
     if !quick { let mut r = Report::new(); check_calls_at_scale(&mut r); rep.merge(r); }
     // culling: every visible pool/lattice triangle x viewports incl. axis-mirrored ones x target kinds
